@@ -37,8 +37,14 @@ Definition endswith (s suf : str) : bool := str_eqb (skipn (List.length s - List
 Definition py_drop_last (s : str) (n : nat) : str :=
   if (n =? 0)%nat then [] else firstn (List.length s - n) s.
 
-Definition new_name (orig tag suf : str) : str :=
-  if endswith orig suf then py_drop_last orig (List.length suf) ++ tag ++ suf
+(* [ci = false]: the code as it is (original.endswith(suffix));
+   [ci = true]: the repaired variant (original.lower().endswith(suffix.lower())), props/C29/fix.patch.
+   The harness determines which one the tree under test implements. *)
+Definition has_suffix (ci : bool) (s suf : str) : bool :=
+  if ci then endswith (lower s) (lower suf) else endswith s suf.
+
+Definition new_name (ci : bool) (orig tag suf : str) : str :=
+  if has_suffix ci orig suf then py_drop_last orig (List.length suf) ++ tag ++ suf
   else orig ++ tag ++ suf.
 
 Definition old_base (modname : str) : str :=
@@ -47,22 +53,22 @@ Definition old_base (modname : str) : str :=
 (* file name without the ".f90" extension *)
 Definition file_stem (modname tag : str) : str := old_base modname ++ tag ++ S_ "_mod".
 Definition file_name (modname tag : str) : str := file_stem modname tag ++ S_ ".f90".
-Definition module_name (modname tag : str) : str := new_name modname tag (S_ "_mod").
-Definition routine_name (kname tag : str) : str := new_name kname tag (S_ "_code").
+Definition module_name (ci : bool) (modname tag : str) : str := new_name ci modname tag (S_ "_mod").
+Definition routine_name (ci : bool) (kname tag : str) : str := new_name ci kname tag (S_ "_code").
 
-(* the convention under which the names provably agree: "_mod" is present in lower case or
-   not at all (in any case) *)
+(* the convention under which the names provably agree for the code as it is: "_mod" is present
+   in lower case or not at all (in any case) *)
 Definition suffix_case_ok (modname : str) : bool :=
   Bool.eqb (endswith modname (S_ "_mod")) (endswith (lower modname) (S_ "_mod")).
 
 (* ---- executable checks used by the correspondence harness ---- *)
 (* _new_name(original, tag, suffix) == observed *)
-Definition check_new_name (c : string * string * string * string) : bool :=
-  match c with (o, t, s, r) => str_eqb (new_name (S_ o) (S_ t) (S_ s)) (S_ r) end.
+Definition check_new_name (c : bool * string * string * string * string) : bool :=
+  match c with (ci, o, t, s, r) => str_eqb (new_name ci (S_ o) (S_ t) (S_ s)) (S_ r) end.
 (* (module_name, kernel name, tag) -> observed (file name, new module name, new kernel name) *)
-Definition check_names (c : string * string * string * (string * string * string)) : bool :=
+Definition check_names (c : bool * string * string * string * (string * string * string)) : bool :=
   match c with
-  | (m, k, t, (f, m', k')) =>
-      str_eqb (file_name (S_ m) (S_ t)) (S_ f) && str_eqb (module_name (S_ m) (S_ t)) (S_ m')
-      && str_eqb (routine_name (S_ k) (S_ t)) (S_ k')
+  | (ci, m, k, t, (f, m', k')) =>
+      str_eqb (file_name (S_ m) (S_ t)) (S_ f) && str_eqb (module_name ci (S_ m) (S_ t)) (S_ m')
+      && str_eqb (routine_name ci (S_ k) (S_ t)) (S_ k')
   end.
